@@ -1,0 +1,5 @@
+//go:build !verif
+
+package tss
+
+func verifPoint(string, Party, ParsedMessage) {}
